@@ -126,7 +126,20 @@ class C13(AstKindProp):
         hist = [r.choice(EMITS) for _ in range(r.randint(1, 4))]
         run.dist["family"]["shared-ir"] += 1
         run.dist["history_len"][len(hist)] += 1
-        return {"family": "ir", "ir": irutil.ir_to_json(irj), "history": hist, "opts": {"emit_default_doc": r.random() < 0.7}}
+        # prose that already carries its default sentence (what a parser hands on), on a third of the defaulted entries
+        for _, p in irj["params"]:
+            if "default" in p and "doc" in p and isinstance(p["default"], (int, float)) and not isinstance(p["default"], bool) and r.random() < 0.33:
+                p["doc"] = p["doc"].rstrip(".,") + ". Defaults to %s" % (p["default"],)
+        c = {"family": "ir", "ir": irutil.ir_to_json(irj), "history": hist, "opts": {"emit_default_doc": r.random() < 0.7}}
+        if r.random() < 0.5:
+            # the default-text option varies from call to call
+            c["edds"] = [r.random() < 0.5 for _ in hist]
+        if r.random() < 0.15 and any(" Defaults to " in (p.get("doc") or "") for _, p in irj["params"]):
+            # directed: a docstring without default text, then another emitter with it (the sentence in the prose must survive)
+            c["history"] = [r.choice(["rest", "numpydoc"]), r.choice(["argparse", "class", "function"])]
+            c["edds"] = [False, True]
+        run.dist["per_call_options"]["edds" in c] += 1
+        return c
 
     def nontrivial(self, c):
         return len(c["history"]) >= 2
@@ -140,6 +153,8 @@ class C13(AstKindProp):
             if len(h) > 1:
                 d = copy.deepcopy(c)
                 del d["history"][k]
+                if "edds" in d:
+                    del d["edds"][k]
                 yield d
         if c["family"] == "ir":
             for k in range(len(c["ir"]["params"])):
@@ -189,15 +204,16 @@ class C13(AstKindProp):
         first = {}
         for step, kind in enumerate(c["history"]):
             fresh = self.py_ir(c["ir"])
+            opts = dict(c["opts"], emit_default_doc=c["edds"][step]) if "edds" in c and step < len(c["edds"]) else c["opts"]
             try:
-                want = self._emit(kind, fresh, c["opts"])
+                want = self._emit(kind, fresh, opts)
             except Exception as e:
                 return fails  # the description is not emittable in this kind at all: not C13's matter
-            if first.setdefault(kind, want) != want:
-                fails.append({"what": "the same conversion of a fresh copy gives a different artefact later in the history (state kept outside the inputs)", "step": step, "kind": kind, "history": c["history"], "got": want[:600], "want": first[kind][:600]})
+            if first.setdefault((kind, opts.get("emit_default_doc")), want) != want:
+                fails.append({"what": "the same conversion of a fresh copy gives a different artefact later in the history (state kept outside the inputs)", "step": step, "kind": kind, "history": c["history"], "got": want[:600], "want": first[(kind, opts.get("emit_default_doc"))][:600]})
                 break
             try:
-                got = self._emit(kind, shared, c["opts"])
+                got = self._emit(kind, shared, opts)
             except Exception as e:
                 fails.append({"what": "emit on the shared description raised", "step": step, "kind": kind, "exc": exc_kind(e)})
                 break
